@@ -82,6 +82,9 @@ OnBuild(s, e) ==
       names == IfaceNames(e.ifaces) \o (IF e.debug THEN <<"">> ELSE <<>>) \o <<"">>
   IN IF e.kinds # kinds \/ e.names # names THEN SFlag(s, "c20-buildtasks-wrong-task-list") ELSE s
 
+\* the link watcher task: a watcher that is not available on this OS is skipped, any other failure is a task error
+OnWTask(s, e) == IF e.err # (e.res = "other") THEN SFlag(s, "c20-link-watcher-task-result-wrong") ELSE s
+
 \* serve(): at most 40 attempts, 3 s apart, first one immediately; a closed server is success; any error that is
 \* not a network operation error ends it at once; cancellation ends it with success before the next attempt
 OnRetry(s, e) ==
